@@ -415,9 +415,29 @@ def r11(ctx, facts):
                 r.fail("no-reset:" + fn_short(b.path), "`*self = ..` replaces the whole stream-id bookkeeping", b.term_span(bb))
 
 
+def r12(ctx, facts):
+    r = ctx.rule("R12", "the writer hands every request frame to the socket completely (write_all): a partial write would leave a frame whose header promises more bytes than follow", floor=1)
+    b = facts.one(r"^scylla::network::connection::Connection::writer::\{closure#0\}$")
+    n = 0
+    for bb, c in b.calls():
+        if bb not in b.live_blocks:
+            continue
+        nm = (c.decl or c.name or "")
+        if "AsyncWriteExt::" in nm or "AsyncWrite::" in nm:
+            meth = nm.split("::")[-1]
+            if meth in ("flush", "shutdown", "poll_flush", "poll_shutdown"):
+                continue
+            n += 1
+            r.instance("frame-written-completely:" + meth, meth in ("write_all", "write_all_buf"),
+                       "Connection::writer sends request bytes with %s(): it may accept only part of a large frame (the BufWriter passes slices of its capacity or more straight to the socket), the rest is dropped "
+                       "and the server reads the following requests as the body of this one" % meth, c.span)
+    if n == 0:
+        raise AnchorLost("Connection::writer: no AsyncWriteExt write call found")
+
+
 def check(ctx):
     facts = inline_view(ctx.facts("default"))
-    for fn in (r1_r2, r3_r4, r5, r6, r7, r8, r9, r10, r11):
+    for fn in (r1_r2, r3_r4, r5, r6, r7, r8, r9, r10, r11, r12):
         try:
             fn(ctx, facts)
         except AnchorLost as ex:
